@@ -101,7 +101,7 @@ def _hh_common(prop, tier, invs, props, focus, query_mc):
         edges = H.export_edges(rep, envs[:2], prop + "eu%d%d" % (W, D), 1000, 2, 1 if query_mc else 2, True, query_mc, True)
         H.replay_edges(rep, edges, envs[:2], 1000, False)
     # (3) code -> spec
-    n = 60 if quick else 600
+    n = 90 if quick else 600
     traces = [H.random_history(rng, focus=rng.choice(focus)) for _ in range(n)]
     for i in range(0, n, 150):
         H.validate(rep, traces[i:i + 150], invs, props, tag=prop + "tr%d" % i)
@@ -216,7 +216,7 @@ def check_C05(tier):
     idx = sorted(rng.sample(range(1, 17), 3) + [1, 16]) if quick else []
     edges = L.export_edges(rep, 2, 2, 3, 3, 1 if quick else 2, False, "c05e", small=quick, env_idx=idx)
     L.replay_edges(rep, edges, 3, True, rng, variants=1 if quick else 2)
-    n = 50 if quick else 500
+    n = 100 if quick else 500
     lt = [L.random_history(rng, focus=rng.choice([None, "ceiling"])) for _ in range(n)]
     for i in range(0, n, 150):
         L.validate(rep, lt[i:i + 150], ["CellsBelowCap"], ["AddEffectProp"], tag="c05lt%d" % i)
@@ -445,7 +445,7 @@ def check_C12(tier):
     H.replay_edges(rep, edges, envs, 1000, False)
     # code -> spec: batch-heavy histories of all five classes; one real call per batch event,
     # the specification computes the loop of single adds
-    n = 40 if quick else 400
+    n = 70 if quick else 400
     lt = [L.random_history(rng, focus="batch") for _ in range(n)]
     gt = [G.random_history(rng, focus="batch") for _ in range(n)]
     ht = [H.random_history(rng, focus="batch") for _ in range(n)]
@@ -528,12 +528,12 @@ def check_C10(tier):
     quick = tier == "quick"
     impl.STRICT_PERSIST = True          # a save/load that raises inside a history is a C10 violation
     # loader / class matrix and parameter / state / observer equality, merge both ways
-    trips = P.roundtrips(rng, 25 if quick else 200)
+    trips = P.roundtrips(rng, 45 if quick else 200)
     P.validate(rep, [], trips, "c10")
     rep.sample({k: trips[0][k] for k in ("cls", "loader", "shm", "outcome", "params_before")})
     # "evolves identically under any further operations": save/load chains inside validated
     # histories of every class -- the loaded object replaces a slot and both continue
-    n = 30 if quick else 300
+    n = 50 if quick else 300
 
     def heavy(mod, focus=None):
         out = []
@@ -676,7 +676,7 @@ def check_C16(tier):
     rng = _rng("C16")
     quick = tier == "quick"
     edges = S.model_and_edges(rep, 2 if quick else 3)
-    ps = S.paths(edges, 7 if quick else 9, rng, 60 if quick else 600)
+    ps = S.paths(edges, 7 if quick else 9, rng, 120 if quick else 600)
     n = 0
     kinds = ["linear", "log16", "log8", "hll", "hh"]
     for i, p in enumerate(ps):
